@@ -201,6 +201,7 @@ func CheckC08() *nrun.Check {
 			"synctests build of xsync",
 			"ticks are harmless: session, rebalance and request timeouts are 5 virtual minutes",
 			"the partitions start at offset 0 and the group has no prior commits (reset to earliest)",
+			"members heartbeat with distinct periods (1.0/1.13/1.27 s) and frames that reach the proxy between the same two decision points are ordered by connection name (tied timers and kfake's map-order JoinGroup/SyncGroup replies are not functions of the choice sequence)",
 			"goroutine micro-interleavings inside one event are the Go runtime's",
 		},
 	}
